@@ -677,10 +677,28 @@ func c16exec(c *h.Ctx, cs *h.Case) {
 		}()
 		c16run(res, &mu, dir, cs.Class)
 	}()
-	select {
-	case <-finished:
+	// a case hangs when no operation of it returns for 30 s (not: when the whole case takes longer - a long history
+	// of write transactions on a loaded machine may)
+	hung := false
+	last, lastAt := -1, time.Now()
+	for done := false; !done && !hung; {
+		select {
+		case <-finished:
+			done = true
+		case <-time.After(500 * time.Millisecond):
+			mu.Lock()
+			n := len(res.impl)
+			mu.Unlock()
+			if n != last {
+				last, lastAt = n, time.Now()
+			} else if time.Since(lastAt) > 30*time.Second {
+				hung = true
+			}
+		}
+	}
+	if !hung {
 		os.RemoveAll(dir)
-	case <-time.After(30 * time.Second):
+	} else {
 		mu.Lock()
 		for len(res.impl) < len(res.ops) {
 			res.impl = append(res.impl, "hang")
